@@ -46,8 +46,9 @@ func (tb *Targetable) Copy() *Targetable {
 	}
 
 	if tb.NestedTargetables != nil {
+		newTb.NestedTargetables = make(Targetables, len(tb.NestedTargetables))
 		for i, ntb := range tb.NestedTargetables {
-			newTb.NestedTargetables[i] = ntb.NestedTargetables[i].Copy()
+			newTb.NestedTargetables[i] = ntb.Copy()
 		}
 	}
 
